@@ -89,6 +89,14 @@ Proof. repeat split; reflexivity. Qed.
 Print Assumptions C16_aliases.
 
 (* non-vacuity: a concrete non-trivial search meeting the hypotheses above *)
+(* Windows and macOS hosts run Linux entries through a VM: for such a (normalised) host, whether a linux entry is runnable is
+   what a Linux host of the same architecture and variant could run; the OS version of either side plays no part *)
+Theorem C16_vm_hosts_run_linux_as_linux : forall h t,
+  (os h = "windows" \/ os h = "darwin") -> os (normalize t) = "linux" ->
+  compatible_n h t = compatible_n (set_os h "linux") t.
+Proof. exact vm_hosts_run_linux_as_linux. Qed.
+Print Assumptions C16_vm_hosts_run_linux_as_linux.
+
 Example C16_nonvacuous :
   let host := P "arm" "v7" in
   let dl := [Some (P "arm" "v5"); None; Some (P "arm64" ""); Some (P "arm" "v7"); Some (P "arm" "v6")] in
